@@ -55,6 +55,17 @@ theorem on_output_is_change_history (k : BKind) (c : Cfg) (out : Val) (vs : List
   rw [e, h1, ← h2, List.map_map]
   rfl
 
+/-- an on_output event without filters: the destination handler is called exactly once per
+    change, in order, with exactly `{trigger: 'output', previous: before, value: after,
+    source: name}` -/
+theorem on_output_deliveries_without_filters (k : BKind) (c : Cfg) (out : Val) (vs : List Val) (i : Nat)
+    (hi : i < c.onOutput.length) (hf : c.onOutput[i].filters = []) :
+    (sendsOf .output i (run k c out vs)).map (·.result) =
+      ((run k c out vs).filter fun r => !(r.before.pyEq r.after)).map
+        fun r => some (rawData c.name r.before r.after) := by
+  rw [sendsOf_output_results k c out vs i hi hf, ← run_changes k c out vs, List.map_map]
+  rfl
+
 /-- `previous` of a send is the very `value` of the send before (same object, not merely equal);
     the first one carries the initial output -/
 theorem chaining (k : BKind) (c : Cfg) (out : Val) (vs : List Val) (i : Nat)
